@@ -57,8 +57,8 @@ class Gen:
             fault = "n"
             if self.fault_budget and "a" in self.faults and rng.random() < 0.15:
                 fault = "a"; self.fault_budget = 0
-                return ["I", str(sb), str(rng.randrange(0, 1000)), fault, "E"]
-            out = ["I", str(sb), str(arg), fault]
+                return ["I", str(sb), str(rng.randrange(0, 1000)), fault + ("v" if rng.random() < 0.4 else ""), "E"]
+            out = ["I", str(sb), str(arg), fault + ("v" if rng.random() < 0.4 else "")]
             eps = live_eps(sb)
             if d > 0 and eps:
                 for _ in range(rng.randrange(0, width + 1)):
@@ -186,7 +186,7 @@ def oracle_c12(toks, line):
         pass
 
     def run_inv():
-        nxt(); sb = int(nxt()); arg = int(nxt()); fault = nxt()
+        nxt(); sb = int(nxt()); arg = int(nxt()); fault = nxt().rstrip("v")   # "nv"/"av": void flavour, same crossings
         if not expect(rf"iI{sb}:gl_node$"):
             raise AssertionError("missing in-notification")
         if fault == "a":
